@@ -41,7 +41,7 @@ def parse_name(s):
     for t in w[1:-1]:
         if len(t) != 2 or t[0] not in ATTR or t[1] not in ".:":
             raise ValueError(s)
-    if arity not in (0, 3, 4) or w[-1] not in FINAL or not links:
+    if arity not in (0, 1, 2, 3, 4) or w[-1] not in FINAL or not links:
         raise ValueError(s)
     return arity, links, w[-1]
 
@@ -199,12 +199,16 @@ def random_name(rng):
     n = rng.choice([1, 1, 2, 2, 2, 3])
     links = [(rng.choice("ckb"), rng.random() < 0.6) for _ in range(n)]
     final = "v" if rng.random() < 0.85 else "x"
-    arity = rng.choice([4, 4, 4, 4, 3, 0, 0])
+    arity = rng.choice([4, 4, 4, 4, 4, 4, 3, 3, 0, 0, 0, 1, 2])
+    if arity in (1, 2):
+        # DST signatures: only with ':' links (no intermediate notification, so handle_dst /
+        # handle_error are never installed); implementation + oracle only ('#' case)
+        links = [(a, False) for a, _ in links]
     return arity, links, final
 
 
 def show_name(arity, links, final):
-    return " ".join([str(arity)] + [a + ("." if n else ":") for a, n in links] + [final])
+    return ("#" if arity in (1, 2) else "") + " ".join([str(arity)] + [a + ("." if n else ":") for a, n in links] + [final])
 
 
 def show_ops(ops):
@@ -327,6 +331,12 @@ class World:
         elif arity == 3:
             def lh(obj, name, new):
                 w.legacy.append((w.idof.get(id(obj), -1), SHORT.get(name, name), None, new))
+        elif arity == 2:
+            def lh(name, new):
+                w.legacy.append((w.current[0], SHORT.get(name, name), None, new))
+        elif arity == 1:
+            def lh(new):
+                w.legacy.append(w.current + (None, new))
         else:
             def lh():
                 w.legacy.append(w.current + (None, None))
